@@ -636,6 +636,26 @@ func checkCollect(r *Run, collect *RuleCtx, fn *ssa.Function, m *agentModel, S s
 			collect.Violation(fn, instrPos(ap), "scan", "the collecting loop is not a range over the table")
 			continue
 		}
+		// every path that reports success has scanned the table (no early `return nil` in front of the scan:
+		// what Collect(t) times out depends on t and the table only, not on earlier calls)
+		{
+			idx := errorResultIndex(fn)
+			rep := map[*ssa.Return]bool{}
+			q := &PathQuery{P: p, Fn: fn}
+			q.Step = func(in ssa.Instruction, deferred bool, st uint64, c *PathCtx) (uint64, bool) {
+				if in == ssa.Instruction(rg) {
+					st |= 1
+				}
+				return st, false
+			}
+			q.AtReturn = func(ret *ssa.Return, st uint64, c *PathCtx) {
+				if idx >= 0 && c.NilState(ret.Results[idx]) != -1 && st&1 == 0 && !rep[ret] {
+					rep[ret] = true
+					collect.ViolationPath(fn, instrPos(ret), "success without scanning the table", "Collect reports success on a path that never looks at the table: overdue transactions stay registered and never get their timeout", c.Witness(fn, ret))
+				}
+			}
+			q.Run()
+		}
 		if _, ok := isLoadOfField(rg.X, m.Tx); !ok {
 			collect.Violation(fn, instrPos(ap), "scan", "the collecting loop does not range over the agent's table")
 		}
